@@ -63,7 +63,7 @@ def correspondence(ctx):
             dis.append(dict(what='solve_impulse_nonlinear does not start from U = 0 / alters the shocks between iterations', case=case))
         for k in pick:
             Uk = [trace[k][0][u] for u in U]
-            exprs.append(f'run_nl_step {N} {T}%Z {NL.coq_tbl(ss, N)} {NL.coq_tbl(ss, N)} {prog} {C.coq_list([int(u[1:]) for u in U], str)} {C.coq_list([int(t[1:]) for t in Tg], str)} '
+            exprs.append(f'run_nl_step false {N} {T}%Z {NL.coq_tbl(ss, N)} {NL.coq_tbl(ss, N)} {prog} {C.coq_list([int(u[1:]) for u in U], str)} {C.coq_list([int(t[1:]) for t in Tg], str)} '
                          f'{NL.coq_devs([(int(z[1:]), p) for z, p in shocks.items()])} {NL.qf(tol)} {C.coq_list(Uk, lambda p: C.coq_list(p, NL.qf))} {C.coq_list(outs, str)}')
             meta.append((case, k, trace, outs, U, Tg, ret, outcome))
     vals, logs = C.eval_in_coq('C06', NL.HEADER, exprs, chunk=4, tag='nl')
